@@ -1,6 +1,7 @@
 (* Stream/Spec.v — what the documentation promises about StreamLexer: a cursor over the completely
    read input, plus the contract the caller has to keep.  Definitions only. *)
 From Verif Require Import Common.Base Stream.Model.
+From Verif Require Cursor.Model.
 
 (* the bytes a schedule delivers: everything up to and including the first event that carries an error *)
 Fixpoint delivered (sch : list event) : list Z :=
@@ -25,6 +26,10 @@ Definition sc_init (d : list Z) : scur := mkSC d 0 0 0 0 0.
 
 Definition byte_at (d : list Z) (i : Z) : Z := if i <? len d then getz d i else 0.
 
+(* peeking up to (not including) absolute offset q raises the high-water mark *)
+Definition hwup (c : scur) (q : Z) : scur :=
+  mkSC (cdat c) (cst c) (cps c) (Z.max (chw c) (Z.min q (len (cdat c)))) (cprev c) (cfreed c).
+
 Definition sspec_step (c : scur) (o : sop) : option (scur * list Z) :=
   let n := len (cdat c) in
   match o with
@@ -33,7 +38,15 @@ Definition sspec_step (c : scur) (o : sop) : option (scur * list Z) :=
         Some (mkSC (cdat c) (cst c) (cps c) (Z.max (chw c) (Z.min (cps c + i + 1) n)) (cprev c) (cfreed c),
               [byte_at (cdat c) (cps c + i)])
       else None
-  | SPeekRune _ => None      (* specified separately (valid UTF-8 only) *)
+  | SPeekRune i =>
+      (* specified on valid UTF-8 only (RFC 3629 decoder of Cursor/Model.v); (0,1) at or past the end *)
+      if cst c <=? cps c + i then
+        if n <=? cps c + i then Some (hwup c (cps c + i + 1), [0; 1])
+        else match Cursor.Model.utf8_decode (skipz (cps c + i) (cdat c)) with
+             | Some (r, k) => Some (hwup c (cps c + i + k), [r; k])
+             | None => None
+             end
+      else None
   | SMove k => let p := cps c + k in
                if (cst c <=? p) && (p <=? chw c) then Some (mkSC (cdat c) (cst c) p (chw c) (cprev c) (cfreed c), []) else None
   | SRewind m => let p := cst c + m in
